@@ -94,6 +94,14 @@ impl LocalSpanStack {
         span_line.collect(span_line_handle.span_line_epoch)
     }
 
+    /// Whether local spans, events and properties are currently being recorded.
+    #[inline]
+    pub fn is_recording(&mut self) -> bool {
+        self.current_span_line()
+            .map(|span_line| span_line.is_sampled())
+            .unwrap_or(false)
+    }
+
     #[inline]
     pub fn add_properties<K, V, I, F>(&mut self, properties: F)
     where
